@@ -59,6 +59,12 @@ func NewUnpackInfo(dst string, header *tar.Header) (UnpackInfo, error) {
 	// seen for what it is.
 	currentPath := dst // Start at the root of the unpacked tarball.
 	components := strings.Split(rel, string(filepath.Separator))
+	if rel == "." {
+		// The entry is the top directory of the archive ("./"), that is the
+		// destination itself, which is the caller's to choose: it may well
+		// be a symlink, and nothing below it is passed through.
+		components = nil
+	}
 
 	for i := 0; i < len(components); i++ {
 		if i == len(components)-1 && header.Typeflag == tar.TypeSymlink {
